@@ -29,7 +29,7 @@ type c01Op struct {
 	ClientID string `json:"client,omitempty"`
 	Req      int    `json:"req,omitempty"`     // late-bound: request id = 1 + Req mod (issued+1)
 	Val      int    `json:"val,omitempty"`     // validator index (mod n); n means a non-validator account
-	Variant  string `json:"variant,omitempty"` // exact|missing|extra|wrong|oversize|exit|empty
+	Variant  string `json:"variant,omitempty"` // exact|missing|extra|wrong|oversize|exit|empty|dupadj|dupfar|reorder
 	DataLen  int    `json:"datalen,omitempty"`
 	Dt       int    `json:"dt,omitempty"`
 }
@@ -84,7 +84,7 @@ func genC01(rt *rapid.T) c01Case {
 				c.Ops = append(c.Ops, c01Op{Kind: "report", Req: req, Val: (start + j) % n, Variant: "exact", DataLen: rapid.IntRange(0, 16).Draw(rt, "datalen")})
 			}
 		case w < 70:
-			v := gen.OneOf(rt, "variant", "exact", "exact", "exact", "exact", "exact", "exact", "missing", "extra", "wrong", "oversize", "exit", "empty")
+			v := gen.OneOf(rt, "variant", "exact", "exact", "exact", "exact", "exact", "exact", "missing", "extra", "wrong", "oversize", "exit", "empty", "dupadj", "dupfar", "reorder")
 			req := rapid.IntRange(0, issued+1).Draw(rt, "req")
 			if issued > 0 && gen.Chance(rt, "recentreq", 6, 10) {
 				req = issued - 1 - rapid.IntRange(0, 1).Draw(rt, "back")
@@ -94,8 +94,13 @@ func genC01(rt *rapid.T) c01Case {
 			}
 			c.Ops = append(c.Ops, c01Op{Kind: "report", Req: req, Val: gen.Uniform(rt, "val", n+1),
 				Variant: v, DataLen: rapid.IntRange(0, 16).Draw(rt, "datalen")})
-		case w < 97:
+		case w < 94:
 			c.Ops = append(c.Ops, c01Op{Kind: "end", Dt: gen.OneOf(rt, "dt", 0, 1, 1, 3, 6, 60)})
+		case w < 97:
+			// the owner (or somebody else) edits an oracle script / data source without changing what it computes:
+			// pending and later requests must behave exactly as if nothing had happened
+			c.Ops = append(c.Ops, c01Op{Kind: "edit", Script: gen.Uniform(rt, "escript", 5),
+				Variant: gen.OneOf(rt, "evariant", "os-keep", "os-keep", "os-same", "ds-keep", "ds-new", "os-foreign")})
 		default:
 			c.Ops = append(c.Ops, c01Op{Kind: "activate", Val: rapid.IntRange(0, n-1).Draw(rt, "val")})
 		}
@@ -130,7 +135,7 @@ type c01Req struct {
 	reportInExpiryBlock bool
 }
 
-var c01ScriptEids = [][]uint64{{1, 2}, {1}, {1}, {1}, {1}}
+var c01ScriptEids = [][]uint64{{1, 2, 3}, {1}, {1}, {1}, {1}}
 
 func c01EchoResult(r *c01Req, execTime int64) []byte {
 	var b bytes.Buffer
@@ -161,12 +166,13 @@ func runC01(c c01Case) *pbt.Verdict {
 	op := oracletypes.DefaultParams()
 	op.ExpirationBlockCount = c.Expiration
 	op.MaxReportDataSize = c.MaxReportSz
+	scripts := [][]byte{sim.ScriptAsk([]int{1, 2, 1}, "ok"), sim.ScriptEcho(1), sim.ScriptAsk([]int{2}, ""),
+		sim.ScriptProbe(1, map[string]int{"last": -1, "ask": 0, "ask+1": 1, "neg1": 0}[c.Probe], c.Probe == "neg1"),
+		sim.ScriptReturnEmpty([]int{2})}
 	ch, err := sim.New(sim.Config{
 		NumAccounts: 2, Validators: vals, Oracle: &op,
 		DataSources: []sim.DSSpec{{Exec: []byte("ds-one-executable-bytes-0123456789abcdef"), Treasury: 1}, {Exec: []byte("ds-two-executable-bytes-0123456789abcdef"), Treasury: 1}},
-		Scripts: [][]byte{sim.ScriptAsk([]int{1, 2}, "ok"), sim.ScriptEcho(1), sim.ScriptAsk([]int{2}, ""),
-			sim.ScriptProbe(1, map[string]int{"last": -1, "ask": 0, "ask+1": 1, "neg1": 0}[c.Probe], c.Probe == "neg1"),
-			sim.ScriptReturnEmpty([]int{2})},
+		Scripts:     scripts,
 	}, 0)
 	if err != nil {
 		v.Failf("harness", "sim.New: %v", err)
@@ -196,7 +202,7 @@ func runC01(c c01Case) *pbt.Verdict {
 	}
 	var block []pendingTx
 	var blockTxs [][]byte
-	twoResolvedOneBlock, rejected := false, 0
+	twoResolvedOneBlock, rejected, edits := false, 0, 0
 
 	flush := func(dt int) bool {
 		res, err := ch.Block(blockTxs, time.Duration(dt)*time.Second)
@@ -210,6 +216,12 @@ func runC01(c c01Case) *pbt.Verdict {
 			tr := res.Resp.TxResults[i]
 			switch p.op.Kind {
 			case "activate":
+			case "edit":
+				if want := p.op.Variant != "os-foreign"; (tr.Code == 0) != want {
+					v.Failf("C01/edit", "edit %s of script/data source %d: code=%d log=%q, expected accepted=%v", p.op.Variant, p.op.Script, tr.Code, tr.Log, want)
+					return false
+				}
+				edits++
 			case "request":
 				if tr.Code != 0 {
 					continue
@@ -283,7 +295,13 @@ func runC01(c c01Case) *pbt.Verdict {
 				}
 				if !accept {
 					rejected++
+					if why == "external ids" && p.op.Variant == "dupfar" && len(p.raw) >= 3 {
+						v.Class("report-nonadjacent-duplicate-id-rejected")
+					}
 					continue
+				}
+				if p.op.Variant == "reorder" && len(p.raw) >= 2 {
+					v.Class("report-ids-reordered-accepted")
 				}
 				r.reports[p.val] = p.raw
 				if r.hasResult {
@@ -414,6 +432,28 @@ func runC01(c c01Case) *pbt.Verdict {
 			a := ch.Vals[o.Val%c.NVals]
 			block = append(block, pendingTx{op: o})
 			blockTxs = append(blockTxs, ch.SignTx(a, oracletypes.NewMsgActivate(a.Val)))
+		case "edit":
+			owner, sender := ch.Users[0], ch.Users[0]
+			var msg sdk.Msg
+			switch o.Variant {
+			case "os-foreign":
+				sender = ch.Users[1]
+				fallthrough
+			case "os-keep":
+				msg = oracletypes.NewMsgEditOracleScript(oracletypes.OracleScriptID(o.Script%5+1), fmt.Sprintf("edited%d", len(block)), oracletypes.DoNotModify, oracletypes.DoNotModify,
+					oracletypes.DoNotModify, oracletypes.DoNotModifyBytes, owner.Addr, sender.Addr)
+			case "os-same":
+				msg = oracletypes.NewMsgEditOracleScript(oracletypes.OracleScriptID(o.Script%5+1), oracletypes.DoNotModify, "same code again", oracletypes.DoNotModify,
+					oracletypes.DoNotModify, scripts[o.Script%5], owner.Addr, sender.Addr)
+			case "ds-keep":
+				msg = oracletypes.NewMsgEditDataSource(oracletypes.DataSourceID(o.Script%2+1), "renamed", oracletypes.DoNotModify, oracletypes.DoNotModifyBytes,
+					sdk.NewCoins(), ch.Users[1].Addr, owner.Addr, sender.Addr)
+			default: // ds-new
+				msg = oracletypes.NewMsgEditDataSource(oracletypes.DataSourceID(o.Script%2+1), oracletypes.DoNotModify, oracletypes.DoNotModify, []byte(fmt.Sprintf("new-executable-%d", len(block))),
+					sdk.NewCoins(), ch.Users[1].Addr, owner.Addr, sender.Addr)
+			}
+			block = append(block, pendingTx{op: o})
+			blockTxs = append(blockTxs, ch.SignTx(sender, msg))
 		case "request":
 			msg := oracletypes.NewMsgRequestData(oracletypes.OracleScriptID(o.Script+1), bytes.Repeat([]byte{7}, o.CallLen), uint64(o.Ask), uint64(o.Min),
 				o.ClientID, sdk.NewCoins(sdk.NewInt64Coin("uband", 1_000_000)), 100_000, 1_000_000, ch.Users[0].Addr, oracletypes.ENCODER_UNSPECIFIED)
@@ -444,6 +484,18 @@ func runC01(c c01Case) *pbt.Verdict {
 				raw = append(raw, oracletypes.NewRawReport(99, 0, data))
 			case "wrong":
 				raw[0].ExternalID = 77
+			case "dupadj": // the right number of reports, one external id twice in a row
+				if len(raw) >= 2 {
+					raw[1].ExternalID = raw[0].ExternalID
+				}
+			case "dupfar": // ... twice, but not next to each other
+				if len(raw) >= 3 {
+					raw[len(raw)-1].ExternalID = raw[0].ExternalID
+				}
+			case "reorder": // exactly the requested ids in another order
+				for i, j := 0, len(raw)-1; i < j; i, j = i+1, j-1 {
+					raw[i], raw[j] = raw[j], raw[i]
+				}
 			case "oversize":
 				raw[0].Data = bytes.Repeat([]byte{1}, int(c.MaxReportSz)+1)
 			case "exit":
@@ -491,6 +543,9 @@ func runC01(c c01Case) *pbt.Verdict {
 		if r.status == oracletypes.RESOLVE_STATUS_FAILURE {
 			v.Class("failure")
 		}
+	}
+	if edits > 0 {
+		v.Class("script-or-datasource-edited")
 	}
 	if rejected > 0 {
 		interesting = true
